@@ -345,7 +345,7 @@ def run_S1(cx, job):
 
 SINGLES = ['(', ')', '((', '))', '()', 'and', 'AND', 'or', 'Or', 'not',
            'NOT', '"x"', "'x'", '""', "''", '"a:b"', 'x', 'a:b', 'a:', ':b',
-           ':', '@', '!', '@@', '!!', '@:', 'a:b:c', 'role', 'rule', 'http',
+           ':', '@', '!', '@@', '!!', '@:', '!@', '@!', 'a:b:c', 'role', 'rule', 'http',
            'role:', 'rule:', "'a':a", "'a':b", 'a.b:c', 'And:x', 'not:x',
            '"x', 'x"', "'", '"', 'é', 'é:é', '%', 'x%', 'role:%(k)s',
            # an opening parenthesis INSIDE the token, a closing one at its
